@@ -442,6 +442,14 @@ class SetGen:
         if rng.random() < (0.7 if self.exotic_defvals else 0.35) and resolved and 'bits' not in (resolved if syn.get('user') else {}):
             local = [n[1] for n in nodes if n[0] == mname]
             d['defval'] = self.defval(resolved, local)
+            if self.exotic_defvals and not syn.get('user') and 'enum' in syn and rng.random() < 0.3:
+                # an enumeration label spelled like a node this module imports: still a label, never that node's OID
+                imported = [sym for frm, syms in self.modules[mname]['imports'].items() for sym in syms
+                            if sym[:1].islower() and '-' not in sym and sym not in [e[0] for e in syn['enum']]]
+                if imported:
+                    k = rng.randrange(len(syn['enum']))
+                    syn['enum'][k] = (rng.choice(imported), syn['enum'][k][1])
+                    d['defval'] = ('enum', syn['enum'][k][0])
             foreign = [n for n in nodes if n[0] != mname and self.importable(mname, n[0], n[1])]
             if self.exotic_defvals and resolved.get('base') == 'OBJECT IDENTIFIER' and foreign and rng.random() < 0.5:
                 fm, fn = rng.choice(foreign)[:2]            # DEFVAL { name } naming a node of another module
@@ -511,10 +519,16 @@ class SetGen:
                 imp(f['module'], f['name'])
         if rng.random() < 0.25:
             index[-1]['implied'] = True
+        if len(index) > 1 and rng.random() < 0.1:
+            index[rng.randrange(len(index) - 1)]['implied'] = True      # the grammar takes IMPLIED on any element
         augments = None
-        rows = [t for k, t in self.truth.items() if t.get('nodetype') == 'row' and t['module'] == mname]
+        rows = [t for k, t in self.truth.items() if t.get('nodetype') == 'row' and
+                (t['module'] == mname or self.importable(mname, t['module'], t['name']))]
         if rows and rng.random() < 0.25:
-            augments = rng.choice(rows)['name']
+            base = rng.choice(rows)                                      # a row of this module or of an earlier one
+            augments = base['name']
+            if base['module'] != mname:
+                imp(base['module'], base['name'])
             index = None
         add({'kind': 'objectType', 'name': ename, 'syntax': {'base': seqname, 'rowref': True}, 'units': None, 'access': 'not-accessible',
              'status': 'current', 'description': self.text(), 'reference': None,
